@@ -96,6 +96,31 @@ def fold(node, env=None, mod_globals=None, depth=0):
             else:
                 res.append(fold(node.elt, e2, mod_globals, depth + 1))
         return res
+    if isinstance(node, ast.GeneratorExp):
+        return f(ast.ListComp(elt=node.elt, generators=node.generators, lineno=getattr(node, "lineno", 0)))
+    if isinstance(node, ast.Call) and isinstance(node.func, ast.Attribute) and not node.args and not node.keywords \
+            and node.func.attr in ("keys", "values", "items"):
+        d = f(node.func.value)
+        if not isinstance(d, dict):
+            raise NotConstant(f".{node.func.attr}() of a non-table")
+        return list(getattr(d, node.func.attr)())
+    if isinstance(node, ast.Call) and isinstance(node.func, ast.Name) and not node.keywords and \
+            node.func.id in ("zip", "list", "tuple", "sorted", "len", "reversed", "enumerate"):
+        args = [f(a) for a in node.args]
+        args = [list(a) if isinstance(a, dict) else a for a in args]
+        if not all(isinstance(a, (list, tuple)) for a in args):
+            raise NotConstant(f"{node.func.id}() of a non-sequence")
+        if node.func.id == "zip":
+            return [tuple(t) for t in zip(*args)]
+        if node.func.id == "enumerate" and len(args) == 1:
+            return [tuple(t) for t in enumerate(args[0])]
+        if len(args) != 1:
+            raise NotConstant(f"{node.func.id}() arity")
+        try:
+            return {"list": list, "tuple": tuple, "sorted": sorted, "len": len,
+                    "reversed": lambda a: list(reversed(a))}[node.func.id](args[0])
+        except TypeError as e:
+            raise NotConstant(str(e)) from e
     if isinstance(node, ast.Call) and isinstance(node.func, ast.Name) and node.func.id == "dict" \
             and len(node.args) == 1 and not node.keywords:
         seq = f(node.args[0])
@@ -131,6 +156,10 @@ def is_inversion_of(node, src_name):
     if isinstance(node, ast.DictComp) and len(node.generators) == 1 and gen_ok(node.generators[0]):
         k, v = (e.id for e in node.generators[0].target.elts)
         return norm(node.key) == v and norm(node.value) == k
+    if isinstance(node, ast.Call) and norm(node.func) == "dict" and len(node.args) == 1 and not node.keywords and \
+            isinstance(node.args[0], ast.Call) and norm(node.args[0].func) == "zip" and len(node.args[0].args) == 2:
+        a, b = (norm(x) for x in node.args[0].args)
+        return a == f"{src_name}.values()" and b in (f"{src_name}.keys()", src_name)
     if isinstance(node, ast.Call) and isinstance(node.func, ast.Name) and node.func.id == "dict" \
             and len(node.args) == 1 and isinstance(node.args[0], (ast.ListComp, ast.GeneratorExp)):
         c = node.args[0]
@@ -201,6 +230,21 @@ def _dict_dispatch(body, var):
                 ast.copy_location(syn, v)
                 chain.append((k.value, [syn]))
             return chain, guard[0].body, guard[0]
+        elif isinstance(s, ast.Try) and len(s.body) == 1 and isinstance(s.body[0], ast.Assign) and \
+                len(s.body[0].targets) == 1 and isinstance(s.body[0].value, ast.Subscript) and \
+                isinstance(s.body[0].value.value, ast.Name) and s.body[0].value.value.id in tables and \
+                norm(s.body[0].value.slice) == var and s.handlers and not s.orelse and not s.finalbody and \
+                all(h.body and isinstance(h.body[-1], ast.Raise) for h in s.handlers) and \
+                any("KeyError" in norm(h.type) for h in s.handlers if h.type is not None):
+            # try: name(s) = tbl[var]   except KeyError: raise ...
+            asg = s.body[0]
+            tbl = tables[asg.value.value.id]
+            chain = []
+            for k, v in zip(tbl.keys, tbl.values):
+                syn = ast.Assign(targets=[asg.targets[0]], value=v)
+                ast.copy_location(syn, v)
+                chain.append((k.value, [syn]))
+            return chain, s.handlers[0].body, s
         elif guard is not None and any(isinstance(n, ast.Name) and n.id == guard[1] and isinstance(n.ctx, ast.Store)
                                        for n in ast.walk(s)):
             return None
